@@ -66,7 +66,7 @@ def task_stateless(task, rec, out):
                     out["findings"].append({"key": f"{task['key']}/{tag}:accept", "what": f"program inside the documented domain is not accepted: {(r.get('error') or '')[:160]}", "kind": "not-accepted", "closed": True, "src": r["src"], "build": build})
                 continue
             sess = engine.Session(stmts, r["json"])
-            fs = engine.check_stateless(
+            fs = [] if task.get("no_ref") else engine.check_stateless(
                 sess, rec, f"{task['key']}/{tag}", task, outputs=task.get("outputs"), check_entities=task.get("check_entities", True)
             )
             if task.get("naming"):
@@ -153,7 +153,7 @@ def task_equiv(task, rec, out):
 
 def task_fresh(task, rec, out):
     """C13: closed clause on the allocated signals + equivalence with the explicitly renamed twin"""
-    t1 = dict(task, fresh=True, check_entities=False, outputs=[])
+    t1 = dict(task, fresh=True, check_entities=False, outputs=[], no_ref=bool(task.get("K")))
     task_stateless(t1, rec, out)
     task_equiv(task, rec, out)
 
